@@ -627,7 +627,7 @@ def run(ctx):
         inj = Injector(rng)
         isigs = set()
         try:
-            for i in range(ctx.scale(600, 12_000)):
+            for i in range(ctx.scale(600, 40_000)):
                 nt = yield_injection(ctx, rng, inj, isigs)
                 ctx.case(("yi", i, ctx.shard) if nt else None)
                 if ctx.extra.get("_stuck_threads"):
